@@ -485,3 +485,173 @@ theorem getAttr_shared (sch : Schema) (at_ : Attrs) (s : State) (f : Nat) (x : I
     cases ((s.links i1).tgt x).head? <;> rfl
 
 end Pyx.Meta
+
+/-! ### audit round 1 (C02#2, #3): referential reads for every sufficient fuel -/
+namespace Pyx.Meta
+
+/-- an upper bound for the number of property layers of any attribute: the number of referential keys in the schema -/
+def layerBound (sch : Schema) : Nat := (sch.map (fun a => a.srcKeys.length)).sum
+
+/-- `bnd K r = (r + 1) * K`, written additively -/
+def bnd (K : Nat) : Nat → Nat
+  | 0 => K
+  | r + 1 => bnd K r + K
+
+theorem bnd_eq (K : Nat) : ∀ r, bnd K r = (r + 1) * K
+  | 0 => by simp [bnd]
+  | r + 1 => by
+    show bnd K r + K = (r + 1 + 1) * K
+    rw [bnd_eq K r, Nat.succ_mul (r + 1) K]
+
+theorem bnd_mono (K : Nat) : ∀ {a b : Nat}, a ≤ b → bnd K a ≤ bnd K b := by
+  intro a b h
+  induction h with
+  | refl => exact Nat.le_refl _
+  | step _ ih => exact Nat.le_trans ih (Nat.le_add_right _ _)
+
+theorem formalFrom_length_le (k : Kind) (attr : String) : ∀ (sch : Schema) (i : Nat),
+    (formalFrom k attr i sch).length ≤ layerBound sch
+  | [], _ => by simp [formalFrom, layerBound]
+  | a :: rest, i => by
+    have ih := formalFrom_length_le k attr rest (i + 1)
+    have hz : (keyPairs a).length ≤ a.srcKeys.length := by
+      unfold keyPairs; rw [List.length_zip]; exact Nat.min_le_left _ _
+    have hf : ((keyPairs a).filter (fun p => decide (p.1 = attr))).length ≤ (keyPairs a).length := List.length_filter_le _ _
+    have ih' : (formalFrom k attr (i + 1) rest).length ≤ (rest.map (fun a => a.srcKeys.length)).sum := ih
+    show (formalFrom k attr i (a :: rest)).length ≤ ((a :: rest).map (fun a => a.srcKeys.length)).sum
+    simp only [formalFrom, List.map_cons, List.sum_cons, List.length_append]
+    split
+    · simp only [List.length_map]; omega
+    · simp only [List.length_nil]; omega
+
+/-- the value a chain of property layers yields, given the (converged) values `V` of the partners' attributes: the
+    first layer across which the instance has a partner decides; unset when there is none -/
+def readSpec (V : Inst → String → Option Nat) (s : State) (x : Inst) : List (Nat × String) → Option Nat
+  | [] => none
+  | (i, pk) :: rest =>
+    match ((s.links i).tgt x).head? with
+    | some o => V o pk
+    | none => readSpec V s x rest
+
+/-- ACYCLICITY of the referential reads: a rank that decreases along every target link that a read follows -/
+def RankDecreases (s : State) (rk : Inst → Nat) : Prop :=
+  ∀ i x o, ((s.links i).tgt x).head? = some o → rk o < rk x
+
+/-- the layers of one instance, for every sufficient fuel, given stability for all instances of smaller rank -/
+theorem readLayers_stable_step (sch : Schema) (at_ : Attrs) (s : State) (rk : Inst → Nat) (K : Nat)
+    (hdec : RankDecreases s rk) (x : Inst)
+    (ih : ∀ o, rk o < rk x → ∀ name f1 f2, bnd K (rk o) ≤ f1 → bnd K (rk o) ≤ f2 →
+      getAttr sch at_ s f1 o name = getAttr sch at_ s f2 o name)
+    (Bo : Nat) (hBo : ∀ o, rk o < rk x → bnd K (rk o) ≤ Bo) :
+    ∀ (layers : List (Nat × String)) (g1 g2 : Nat), layers.length + Bo ≤ g1 → layers.length + Bo ≤ g2 →
+      readLayers sch at_ s g1 x layers = readLayers sch at_ s g2 x layers
+  | [], g1, g2, _, _ => by
+    cases g1 <;> cases g2 <;> simp [readLayers]
+  | (i, pk) :: rest, g1, g2, h1, h2 => by
+    obtain ⟨g1', rfl⟩ : ∃ g, g1 = g + 1 := ⟨g1 - 1, by simp at h1; omega⟩
+    obtain ⟨g2', rfl⟩ : ∃ g, g2 = g + 1 := ⟨g2 - 1, by simp at h2; omega⟩
+    simp only [List.length_cons] at h1 h2
+    unfold readLayers
+    cases ho : ((s.links i).tgt x).head? with
+    | some o =>
+      have hr := hdec i x o ho
+      exact ih o hr pk g1' g2' (by have := hBo o hr; omega) (by have := hBo o hr; omega)
+    | none =>
+      cases rest with
+      | nil => rfl
+      | cons q qs =>
+        exact readLayers_stable_step sch at_ s rk K hdec x ih Bo hBo (q :: qs) g1' g2' (by simp at h1 ⊢; omega) (by simp at h2 ⊢; omega)
+
+/-- fuel independence: above `bnd (layerBound sch + 2) (rk x)` the result of a read no longer depends on the fuel -/
+theorem getAttr_stable (sch : Schema) (at_ : Attrs) (s : State) (rk : Inst → Nat) (hdec : RankDecreases s rk) :
+    ∀ (n : Nat) (x : Inst), rk x = n → ∀ name f1 f2, bnd (layerBound sch + 2) n ≤ f1 → bnd (layerBound sch + 2) n ≤ f2 →
+      getAttr sch at_ s f1 x name = getAttr sch at_ s f2 x name := by
+  intro n
+  induction n using Nat.strongRecOn with
+  | _ n IH =>
+    intro x hx name f1 f2 h1 h2
+    have hK : 2 ≤ bnd (layerBound sch + 2) n := by
+      cases n with
+      | zero => simp [bnd]
+      | succ m => simp only [bnd]; omega
+    obtain ⟨g1, rfl⟩ : ∃ g, f1 = g + 1 := ⟨f1 - 1, by omega⟩
+    obtain ⟨g2, rfl⟩ : ∃ g, f2 = g + 1 := ⟨f2 - 1, by omega⟩
+    unfold getAttr
+    have hlen : ((formalFrom (s.kindOf x) name 0 sch).reverse).length ≤ layerBound sch := by
+      rw [List.length_reverse]; exact formalFrom_length_le _ _ _ _
+    cases hl : (formalFrom (s.kindOf x) name 0 sch).reverse with
+    | nil => rfl
+    | cons p ps =>
+      simp only
+      rw [hl] at hlen
+      have ih' : ∀ o, rk o < rk x → ∀ nm a b, bnd (layerBound sch + 2) (rk o) ≤ a → bnd (layerBound sch + 2) (rk o) ≤ b →
+          getAttr sch at_ s a o nm = getAttr sch at_ s b o nm :=
+        fun o ho nm a b ha hb => IH (rk o) (hx ▸ ho) o rfl nm a b ha hb
+      cases n with
+      | zero =>
+        apply readLayers_stable_step sch at_ s rk _ hdec x ih' 0 (fun o ho => by omega)
+        · simp only [bnd] at h1; omega
+        · simp only [bnd] at h2; omega
+      | succ m =>
+        apply readLayers_stable_step sch at_ s rk _ hdec x ih' (bnd (layerBound sch + 2) m)
+          (fun o ho => bnd_mono _ (by omega))
+        · simp only [bnd] at h1; omega
+        · simp only [bnd] at h2; omega
+
+/-- the converged value of an attribute -/
+def readValue (sch : Schema) (at_ : Attrs) (s : State) (rk : Inst → Nat) (x : Inst) (name : String) : Option Nat :=
+  getAttr sch at_ s (bnd (layerBound sch + 2) (rk x)) x name
+
+theorem readLayers_spec (sch : Schema) (at_ : Attrs) (s : State) (rk : Inst → Nat) (hdec : RankDecreases s rk) (x : Inst)
+    (Bo : Nat) (hBo : ∀ o, rk o < rk x → bnd (layerBound sch + 2) (rk o) ≤ Bo) :
+    ∀ (layers : List (Nat × String)) (g : Nat), layers.length + Bo ≤ g →
+      readLayers sch at_ s g x layers = readSpec (readValue sch at_ s rk) s x layers
+  | [], g, _ => by cases g <;> simp [readLayers, readSpec]
+  | (i, pk) :: rest, g, h => by
+    obtain ⟨g', rfl⟩ : ∃ k, g = k + 1 := ⟨g - 1, by simp at h; omega⟩
+    simp only [List.length_cons] at h
+    unfold readLayers readSpec
+    cases ho : ((s.links i).tgt x).head? with
+    | some o =>
+      have hr := hdec i x o ho
+      simp only
+      unfold readValue
+      exact getAttr_stable sch at_ s rk hdec (rk o) o rfl pk g' _ (by have := hBo o hr; omega) (Nat.le_refl _)
+    | none =>
+      cases rest with
+      | nil => simp [readSpec]
+      | cons q qs =>
+        simp only
+        exact readLayers_spec sch at_ s rk hdec x Bo hBo (q :: qs) g' (by simp at h ⊢; omega)
+
+/-- THE referential-read clause, for a general layer list and EVERY sufficient fuel: an attribute that no association
+    formalises reads the instance's own id (or is unset); a referential attribute reads the (converged) identifying value
+    of the partner across the outermost layer that has a partner, and is unset when no layer has one -/
+theorem getAttr_spec (sch : Schema) (at_ : Attrs) (s : State) (rk : Inst → Nat) (hdec : RankDecreases s rk)
+    (x : Inst) (name : String) (fuel : Nat) (hf : bnd (layerBound sch + 2) (rk x) ≤ fuel) :
+    getAttr sch at_ s fuel x name =
+      match (formalFrom (s.kindOf x) name 0 sch).reverse with
+      | [] => if at_.idName (s.kindOf x) = some name then some (s.idOf x) else none
+      | layers => readSpec (readValue sch at_ s rk) s x layers := by
+  have hK : 2 ≤ bnd (layerBound sch + 2) (rk x) := by
+    cases rk x with
+    | zero => simp [bnd]
+    | succ m => simp only [bnd]; omega
+  obtain ⟨g, rfl⟩ : ∃ g, fuel = g + 1 := ⟨fuel - 1, by omega⟩
+  unfold getAttr
+  have hlen : ((formalFrom (s.kindOf x) name 0 sch).reverse).length ≤ layerBound sch := by
+    rw [List.length_reverse]; exact formalFrom_length_le _ _ _ _
+  cases hl : (formalFrom (s.kindOf x) name 0 sch).reverse with
+  | nil => rfl
+  | cons p ps =>
+    simp only
+    rw [hl] at hlen
+    cases hr : rk x with
+    | zero =>
+      apply readLayers_spec sch at_ s rk hdec x 0 (fun o ho => by omega)
+      rw [hr] at hf; simp only [bnd] at hf; omega
+    | succ m =>
+      apply readLayers_spec sch at_ s rk hdec x (bnd (layerBound sch + 2) m) (fun o ho => bnd_mono _ (by omega))
+      rw [hr] at hf; simp only [bnd] at hf; omega
+
+end Pyx.Meta
